@@ -104,6 +104,7 @@ pub struct World {
     pub parts: Vec<PartCtx>,
     pub writers: Vec<Option<WriterCtx>>,
     pub readers: Vec<Option<ReaderCtx>>,
+    pub decoys: Vec<DataWriterAsync<KeyedData>>,
     pub domain: i32,
 }
 
@@ -176,7 +177,7 @@ pub fn reader_qos(q: &Value) -> DataReaderQos {
 
 impl World {
     pub fn new(domain: i32) -> Self {
-        World { core: global().sim.core.clone(), parts: vec![], writers: vec![], readers: vec![], domain }
+        World { core: global().sim.core.clone(), parts: vec![], writers: vec![], readers: vec![], decoys: vec![], domain }
     }
 
     pub async fn add_participant(&mut self) -> usize {
@@ -240,6 +241,23 @@ impl World {
             "participant" => {
                 let k = self.add_participant().await;
                 core.log(json!({"ev": "Participant", "p": k, "net": self.parts[k].index}));
+            }
+            "create_decoy_writer" => {
+                // a writer on another topic of the same participant (never matched): exercises code that
+                // iterates over all writers of a participant
+                let part = st["part"].as_u64().unwrap_or(0) as usize;
+                let qos = writer_qos(&st["qos"]);
+                let tname = format!("Decoy{}", self.writers.len());
+                if let Ok(topic) = self.parts[part].p.create_topic::<KeyedData>(&tname, "KeyedData", QosKind::Default, NO_LISTENER, NO_STATUS).await {
+                    let w = self.parts[part].publisher.create_datawriter::<KeyedData>(&topic, QosKind::Specific(qos), NO_LISTENER, NO_STATUS).await;
+                    core.log(json!({"ev": "CreateDecoyWriter", "part": part, "res": res_name(&w)}));
+                    if let Ok(w) = w {
+                        if st["write"].as_bool().unwrap_or(false) {
+                            let _ = w.write(KeyedData { id: 9, w: 99, seq: 1, data: vec![1, 2, 3] }, None).await;
+                        }
+                        self.decoys.push(w);
+                    }
+                }
             }
             "create_writer" => {
                 let part = st["part"].as_u64().unwrap_or(0) as usize;
@@ -554,6 +572,7 @@ impl World {
         let g = global();
         self.writers.clear();
         self.readers.clear();
+        self.decoys.clear();
         {
             let mut c = self.core.lock();
             c.user_faults = FaultMode::default();
